@@ -511,6 +511,16 @@ func runAll(c *Ctx, sh *shared, tmp string) {
 			mu.Unlock()
 		}(si, sc)
 	}
+	// the file-system calls of one submission under strace, for a local and for a remote unit
+	for _, sc := range scenarios {
+		if (sc.Name == "local-finished" || sc.Name == "remote-unbound") && (only == "" || strings.Contains(sc.Name, only)) {
+			wg.Add(1)
+			go func(sc scenario) {
+				defer wg.Done()
+				opSequence(c, sh, filepath.Join(tmp, sc.Name, "opseq"), sc)
+			}(sc)
+		}
+	}
 	wg.Wait()
 	sem := make(chan struct{}, 8)
 	for _, j := range jobs {
